@@ -614,12 +614,9 @@ class LoaderBase(ABC):
             **align_kwargs,
         )
 
+        task_shape = model._landscape_shape(_max_shifts_px, upsample)
         if model.is_multi_templates:
-            task_shape = (model.niter,) + tuple(
-                2 * np.ceil(_max_shifts_px).astype(np.int32) + 1
-            )
-        else:
-            task_shape = tuple(2 * np.ceil(_max_shifts_px).astype(np.int32) + 1)
+            task_shape = (model.niter,) + task_shape
         task_arrays = (
             self.replace(output_shape=model.input_shape)
             .iter_mapping_tasks(
